@@ -713,6 +713,19 @@ func (e *Exec) lookup(x *ssa.Lookup, base, key Value) Value {
 					break
 				}
 			}
+		} else if kt, ok := key.(*term.T); ok {
+			// symbolic integer key: decide entry by entry (maps used as lookup tables)
+			for i, k := range m.Keys {
+				ck, ok := k.(*term.T)
+				if !ok || ck.Sort != kt.Sort {
+					continue
+				}
+				if e.Branch(e.C.Eq(kt, ck), "maplookup") {
+					val = copyVal(m.Vals[i])
+					found = e.C.True
+					break
+				}
+			}
 		} else {
 			e.unsupported("symbolic map key")
 		}
